@@ -65,7 +65,62 @@ type RCase struct {
 	InWindow  bool   `json:"in_window"`
 	Base      uint32 `json:"base"`
 	Real      bool   `json:"real_time,omitempty"` // C19: real sleeps, bracketed clock reads
-	Ops       []ROp  `json:"ops"`
+	// Peer: a second Reassembler is alive in the process and used by the same goroutine before every operation of
+	// the history and from inside every ReassemblyComplete callback of the history's Reassembler (a consumer that
+	// feeds what it gets into the next stage). Objects are independent: the outcome of the history is the one the
+	// model computes for it alone, and the peer delivers exactly its own records.
+	Peer bool  `json:"peer,omitempty"`
+	Ops  []ROp `json:"ops"`
+}
+
+// peerR is the second Reassembler of a history with Peer set: every step pushes the first records of two new
+// events into a window that holds them all (at most 4000): it only ever takes, and gives back when it is closed. It checks its own deliveries.
+type peerR struct {
+	r      *libaudit.Reassembler
+	k      uint32
+	pushed map[uint32]*auparse.AuditMessage
+	seen   map[uint32]bool
+	bad    string
+}
+
+func (p *peerR) ReassemblyComplete(msgs []*auparse.AuditMessage) {
+	if p.bad != "" {
+		return
+	}
+	if len(msgs) != 1 {
+		p.bad = fmt.Sprintf("the second Reassembler delivered a group of %d records; each of its events has one", len(msgs))
+		return
+	}
+	m := msgs[0]
+	switch {
+	case p.pushed[m.Sequence] != m:
+		p.bad = fmt.Sprintf("the second Reassembler delivered a record (sequence %d, type %d) that was not pushed into it", m.Sequence, m.RecordType)
+	case p.seen[m.Sequence]:
+		p.bad = fmt.Sprintf("the second Reassembler delivered event %d twice", m.Sequence)
+	}
+	p.seen[m.Sequence] = true
+}
+func (p *peerR) EventsLost(int) {}
+
+func (p *peerR) step() {
+	for i := 0; i < 2 && p.k < 4000; i++ {
+		p.k++
+		m := &auparse.AuditMessage{RecordType: tSYSCALL, Sequence: 1000000 + p.k}
+		p.pushed[m.Sequence] = m
+		p.r.PushMessage(m)
+	}
+}
+
+func (p *peerR) finish() string {
+	p.r.Close()
+	if p.bad == "" {
+		for s := range p.pushed {
+			if !p.seen[s] {
+				return fmt.Sprintf("the second Reassembler never delivered event %d", s)
+			}
+		}
+	}
+	return p.bad
 }
 
 func (c RCase) canon() string { b, _ := json.Marshal(c); return string(b) }
@@ -92,6 +147,7 @@ type recStream struct {
 	nestAt int
 	ncb    int
 	exec   func(ROp)
+	peer   *peerR
 }
 
 type delivered struct {
@@ -123,6 +179,9 @@ func (s *recStream) ReassemblyComplete(msgs []*auparse.AuditMessage) {
 	s.cur = append(s.cur, "g:"+strings.Join(parts, ","))
 	s.grps = append(s.grps, g)
 	s.ncb++
+	if s.peer != nil {
+		s.peer.step()
+	}
 	if s.nest != nil && s.ncb-1 == s.nestAt {
 		// calls made from inside this callback: each is recorded as an operation of its own
 		n := s.nest
@@ -161,12 +220,27 @@ func runReasmImpl(c RCase) (obs []opObs, panicMsg string) {
 	if err != nil {
 		return nil, "constructor: " + err.Error()
 	}
+	if c.Peer && err == nil {
+		p := &peerR{pushed: map[uint32]*auparse.AuditMessage{}, seen: map[uint32]bool{}}
+		if p.r, err = libaudit.NewReassembler(4096, time.Hour, p); err != nil {
+			return nil, "constructor: " + err.Error()
+		}
+		st.peer = p
+		defer func() {
+			if bad := p.finish(); bad != "" && panicMsg == "" {
+				panicMsg = "objects are independent: " + bad
+			}
+		}()
+	}
 	start := time.Now()
 	stop := ""
 	var exec func(op ROp)
 	exec = func(op ROp) {
 		if stop != "" {
 			return
+		}
+		if st.peer != nil {
+			st.peer.step()
 		}
 		idx := len(obs)
 		obs = append(obs, opObs{})
@@ -1006,6 +1080,10 @@ func runReasmCase(ctx *Ctx, m *common.Model, c RCase, idx int) *common.Violation
 		c = stampCase(reasmStampRng, c)
 		ctx.Res.Hist("time stamps varied")
 	}
+	if reasmStampRng != nil && !c.Real && len(c.Ops) < 2000 && reasmStampRng.Intn(3) == 0 {
+		c.Peer = true
+		ctx.Res.Hist("a second Reassembler in use")
+	}
 	obs, pmsg := runReasmImpl(c)
 	impl := make([]string, len(obs))
 	for i := range obs {
@@ -1022,6 +1100,9 @@ func runReasmCase(ctx *Ctx, m *common.Model, c RCase, idx int) *common.Violation
 		ctx.Res.Hist("in_window")
 	} else {
 		ctx.Res.Hist("arbitrary_sequences")
+	}
+	if strings.HasPrefix(pmsg, "objects are independent") {
+		return &common.Violation{Kind: "monitor", Clause: ctx.Prop + ", with a second Reassembler in use by the same goroutine: " + pmsg, Input: c, Impl: strings.Join(impl, " | "), Case: idx}
 	}
 	if pmsg != "" {
 		return &common.Violation{Kind: "monitor", Clause: "panic or constructor failure: " + pmsg, Input: c, Impl: strings.Join(impl, " | "), Case: idx}
